@@ -61,7 +61,9 @@ SRCS = ['crypto/crypto_aes.c', 'crypto/crypto_aes_aesni.c',
         'crypto/crypto_aesctr.c', 'crypto/crypto_aesctr_aesni.c',
         'cpusupport/cpusupport_x86_aesni.c',
         'util/insecure_memzero.c', 'util/warnp.c']
-BUILDS = [('hw', None), ('sw', ['X86_CPUID'])]
+# hwlu: the AES-NI build as a compiler without _mm_loadu_si64 gets it
+# (cpusupport.sh then adds -DBROKEN_MM_LOADU_SI64: another load sequence)
+BUILDS = [('hw', None), ('sw', ['X86_CPUID']), ('hwlu', None)]
 FULLMAX = 4096
 M64 = (1 << 64) - 1
 
@@ -429,6 +431,45 @@ def far_case(rnd, item):
                      'far': '2^%d-%d %s' % (f['exp'], f['d'], f['kind'])}}
 
 
+def end_of_range_cases(rnd):
+    """Streams over the LAST blocks of the 64-bit byte position: positioned at
+    block 2^60 - d, they end exactly at byte 2^64 (or one to twenty bytes
+    short of it), under bulk, sub-block, mixed and 0-length partitions."""
+    out = []
+    for d in (1, 2, 3, 17, 300):
+        for kind in ('one-call', 'blocks', 'sub-block', 'mixed', 'short-of-the-end'):
+            n = 16 * d
+            if kind == 'short-of-the-end':
+                n -= rnd.choice([1, 5, 15, 16, 20]) if n > 20 else 1
+            if kind == 'one-call':
+                parts = [n]
+            elif kind == 'blocks':
+                parts = [16] * (n // 16) + ([n % 16] if n % 16 else [])
+            elif kind == 'sub-block':
+                parts, left = [], n
+                while left:
+                    c = min(left, rnd.choice([1, 3, 7, 15, 0]))
+                    parts.append(c)
+                    left -= c
+            else:
+                parts, left = [], n
+                while left:
+                    c = min(left, rnd.choice([0, 5, 16, 33, 160, 1000, 4096]))
+                    parts.append(c)
+                    left -= c
+            key, nonce, data = rand_key(rnd), rand_nonce(rnd), rbytes(rnd, n)
+            flags = rnd.choice('ia') + rnd.choice(['', 'p']) + rnd.choice(['', 't'])
+            start = FAR_LIMIT - d
+            out.append({'kind': 'ctr-far', 'expect': '', 'nt': True,
+                        'line': 'F %s %s %d %d %s %s' % (flags, key.hex(), nonce, start, core.hx(data),
+                                                         pstr(parts)),
+                        'sig': sig('F', 60, d, kind, len(key), flags, len(parts)),
+                        'meta': {'segs': [{'key': key.hex(), 'nonce': nonce, 'data': core.hx(data),
+                                           'start': start}],
+                                 'far': '2^60-%d end-of-range:%s' % (d, kind)}})
+    return out
+
+
 def rle(parts):
     """Compress runs of equal call sizes into NxM tokens."""
     out = []
@@ -584,6 +625,10 @@ def gen_cases(seed, tier, shard=0, nshards=1):
     for i, item in enumerate(far_items(1 if tier == 'quick' else 12)):
         if i % nshards == shard:
             cases.append(far_case(frnd, item))
+    # the last blocks of the stream: up to and including the byte 2^64 - 1
+    for i, c in enumerate(end_of_range_cases(random.Random(seed ^ 0xE0F))):
+        if i % nshards == shard:
+            cases.append(c)
     return cases
 
 
@@ -926,7 +971,8 @@ def _faulty(a):
 def build(ctx):
     exes = []
     for bname, cpu in BUILDS:
-        objs = ctx.builder.lib('asan', SRCS, cpu=cpu)
+        objs = ctx.builder.lib('asan', SRCS, cpu=cpu,
+                               defs=(('BROKEN_MM_LOADU_SI64',) if bname == 'hwlu' else ()))
         exes.append((bname, ctx.builder.driver('c02-' + bname, 'asan',
                                                ['c02_aes.c', 'common/refaes.c',
                                                 'common/wrapalloc.c',
@@ -934,7 +980,7 @@ def build(ctx):
                                                wraps=['malloc', 'calloc', 'realloc', 'free',
                                                       'strdup'] +
                                                (['crypto_aes_key_expand_aesni']
-                                                if bname == 'hw' else []),
+                                                if bname.startswith('hw') else []),
                                                defs=['VH_WRAPALLOC'])))
     return exes
 
@@ -1012,9 +1058,12 @@ def run(ctx):
         'hook': 'crypto_aesctr_verif_seek (crypto/crypto_aesctr.c, LIBCPERCIVA_VERIF)',
         'streams_per_boundary': {b: per_b[b] for b in sorted(per_b, key=lambda x: int(x[2:]))},
         'streams_per_kind': per_k, 'start_offsets_d': FAR_DS,
-        'excluded': 'block 2^64 (not named by the statement) and everything from block 2^60 on '
-                    '(64-bit byte position of the library ends there)'}
-    if len(per_b) != len(FAR_EXPS) or set(per_k) != set(FAR_KINDS + ['big-bulk']):
+        'end_of_range': 'streams positioned at block 2^60 - d (d = 1, 2, 3, 17, 300) run to the last byte of '
+                        'the 64-bit byte position (2^64 - 1) or stop a few bytes short of it',
+        'excluded': 'everything from block 2^60 on (the 64-bit byte position of the library ends there)'}
+    EOR = ['end-of-range:' + k for k in ('one-call', 'blocks', 'sub-block', 'mixed', 'short-of-the-end')]
+    if set(per_b) != set('2^%d' % e for e in FAR_EXPS + [60]) or \
+            set(per_k) != set(FAR_KINDS + ['big-bulk'] + EOR):
         ctx.note_inconclusive('far-offset streams did not cover every boundary and kind: %r %r'
                               % (sorted(per_b), sorted(per_k)))
     for r in res[-n:][:2]:
